@@ -1123,6 +1123,11 @@ fn gen_global_account(r: &mut Rng) -> Gen {
             _ => B::new().soft("base_url", json!(null)).extras(r),
         },
         "m.secret_storage.default_key" => B::new().req("key", json!("abcdefg")).extras(r),
+        // an algorithm ruma does not know: kept with its properties (the `algorithm` member once)
+        _ if r.chance(1, 4) => B::new()
+            .req("algorithm", json!("org.example.custom_alg"))
+            .opt(r, "name", |_| json!("m.default"))
+            .req("org.example.prop", json!({"a": 1})),
         _ => B::new()
             .req("algorithm", json!("m.secret_storage.v1.aes-hmac-sha2"))
             .opt(r, "name", |_| json!("m.default"))
